@@ -19,6 +19,8 @@ def sysStr (s : Sys) : String :=
 /-- judge an observed final line `c=<n> k=<0/1> pcs` -/
 def judgeFinal (f : List String) : String :=
   match f with
+  | [c, k, pcs, bad] =>
+    if bad != "bad=0" then "eof-while-packets-buffered:" ++ bad else judgeFinal [c, k, pcs]
   | [c, k, pcs] =>
     let count := nat! (c.drop 2).toString
     let closed := k == "k=1"
@@ -28,6 +30,8 @@ def judgeFinal (f : List String) : String :=
     if pending then "not-quiescent"
     else if parked ∧ count > 0 then "stranded-reader:parked-with-" ++ toString count ++ "-buffered"
     else if parked ∧ closed then "stranded-reader:parked-after-close"
+    -- after Close nothing more is stored, so packets left at the end were there when a reader was told end-of-file
+    else if ps.any (· == "eof") ∧ count > 0 then "eof-with-" ++ toString count ++ "-packets-still-buffered"
     else "end"
   | _ => "bad-final-line"
 
